@@ -131,6 +131,13 @@ class C13(Check):
                 bl.bump(st, f'unit:{"chunked" if chunked else "cl"}:' + ('ok' if res['ok'] else res['err']))
                 if res['ok']:
                     bl.bump(st, 'unit:spilled' if res['spill'] else 'unit:in-memory')
+                if rng.random() < .5:
+                    # the same read with the spool file unavailable (TemporaryFile() raises OSError): model `bodyReadF`
+                    fault = rng.choice(bl.FAULTS)
+                    resf = bl.run_read(raw, sched, buf, cl, chunked, maxb, fault=fault)
+                    out.append((bl.line_read(raw, sched, buf, cl, chunked, maxb, fault=fault), bl.ans_read(resf),
+                                dict(kind='readf', fault=fault, **sample)))
+                    bl.bump(st, f'unit-no-tempdir:{"chunked" if chunked else "cl"}:' + ('ok' if resf['ok'] else resf['err']))
             else:
                 ops = rng.choice([['B'], ['S'], ['B', 'S'], ['S', 'B'], ['S', 'S'], ['P1', 'S', 'I'], ['?B', 'B'], ['?S', 'B'],
                                   ['K', 'B'], ['K', 'S'], ['K', '?B', '?S'], ['K', 'P2', 'B', 'I'],
@@ -182,6 +189,46 @@ class C13(Check):
     # ------------------------------------------------------------------
     def _oracle(self, c):
         """the property on the real code; returns None or (key, what)"""
+        return self._oracle_plain(c) or self._oracle_no_disk(c)
+
+    def _oracle_no_disk(self, c):
+        """"a body larger than the in-memory threshold is kept on disk rather than in memory" - also when the disk is
+        not there: with the temp directory unusable (every flavour of bl.FAULTS) the request may fail, but neither
+        _body_read nor the request may end up holding more than max_memfile_size bytes in an in-memory buffer"""
+        kind, sched, buf, maxb = c['probe'], c['sched'], c['buf'], c['max']
+        payload = bytes.fromhex(c['payload'])
+        n = len(payload)
+        if n <= buf:
+            return None
+        if kind == 'cl':
+            raw, cl, te, clh, chunked, op, ctype = payload + bytes.fromhex(c.get('tail', '')), n, None, str(n), False, 'B', None
+        elif kind == 'chunked':
+            enc = bl.Enc([(bytes.fromhex(p), bytes.fromhex(s), bytes.fromhex(e)) for p, s, e in c['chunks']],
+                         (b'0', b''), bytes.fromhex(c['trailer']))
+            raw, cl, te, clh, chunked, op, ctype = enc.encode(), -1, 'chunked', None, True, 'B', None
+        else:
+            chunked, op, ctype = c['chunked'], c['op'], c['ctype']
+            if chunked:
+                raw = bl.Enc([(payload[i:i + 37], bl.spell(len(payload[i:i + 37])), b'') for i in range(0, n, 37)]).encode()
+                cl, te, clh = -1, 'chunked', None
+            else:
+                raw, cl, te, clh = payload, n, None, str(n)
+        for fault in bl.FAULTS:
+            what = f'{n}-byte {"chunked" if chunked else "Content-Length"} body, max_memfile_size {buf}, max_body_size {maxb}, ' \
+                   f'temp directory unusable ({fault})'
+            r = bl.run_read(raw, sched, buf, cl, chunked, maxb, fault=fault)
+            if r['ok'] and not r['spill'] and len(r['bytes']) > buf:
+                return (f'{"chunked" if chunked else "cl"}:no-disk-kept-in-memory',
+                        f'{what}: _body_read returned an in-memory buffer of {len(r["bytes"])} bytes')
+            for ops in ([op], ['?' + op, '?' + op]):
+                w = bl.run_wsgi('@', buf, maxb, clh, te, raw, sched, ops, ctype=ctype, fault=fault)
+                if w['mem_body'] is not None and w['mem_body'] > buf:
+                    return (f'{"chunked" if chunked else "cl"}:no-disk-kept-in-memory',
+                            f'{what}: the request (handler ops {ops}) was answered {w["status"]} holding an in-memory body of '
+                            f'{w["mem_body"]} bytes')
+        return None
+
+    def _oracle_plain(self, c):
         kind = c['probe']
         sched, buf, maxb = c['sched'], c['buf'], c['max']
         payload = bytes.fromhex(c['payload'])
